@@ -52,9 +52,6 @@ Proof.
   - apply (inc_weaken (wname x)); [lia|]. apply IH. assumption.
 Qed.
 
-Fixpoint incb (lo : Z) (ws : list wire) : bool :=
-  match ws with [] => true | x :: r => (lo <? wname x) && incb (wname x) r end.
-
 Lemma incb_inc lo ws : incb lo ws = true -> inc lo ws.
 Proof.
   revert lo. induction ws as [|x r IH]; intros lo H; [exact I|].
@@ -1133,7 +1130,7 @@ Proof.
   - cbn [map emit_gnets fst fold_left]. unfold FlattenProofs.runs. cbn [fold_left]. split; [assumption|reflexivity].
   - destruct (Hall n (or_introl eq_refl)) as [Hc Hso].
     cbn [WFDefs.nets_ok] in Hok. apply andb_true_iff in Hok. destruct Hok as [Hn Hr].
-    cbn [map]. rewrite emit_gnets_cons in *. cbn [fst snd] in *. cbn [fold_left].
+    cbn [map] in *. rewrite emit_gnets_cons in *. cbn [fst snd] in *. cbn [fold_left].
     apply decl_split in Hdecl. destruct Hdecl as [Hd1 Hd2].
     destruct (seg_comb rdy n base vf bv HI Hc Hn Hso Hbase Hd1) as [S1 S2]. cbv zeta in S1, S2.
     rewrite runs_app.
@@ -1183,7 +1180,7 @@ Proof.
   induction ns as [|n r IH]; intros base vf Hall HI Hbase Hdecl; cbv zeta.
   - cbn [map emit_gnets fst wr_post]. unfold FlattenProofs.runs. cbn [fold_left]. split; [reflexivity|exact I].
   - destruct (Hall n (or_introl eq_refl)) as (Hc & Hin & Har).
-    cbn [map]. rewrite emit_gnets_cons in *. cbn [fst snd] in *. cbn [wr_post].
+    cbn [map] in *. rewrite emit_gnets_cons in *. cbn [fst snd] in *. cbn [wr_post].
     apply decl_split in Hdecl. destruct Hdecl as [Hd1 Hd2].
     destruct (seg_seq rdy n base vf bv HI Hc Hin Har Hbase Hd1) as [S1 S2]. cbv zeta in S1, S2.
     rewrite runs_app.
